@@ -37,7 +37,7 @@ class Rng:
 
 
 # (w, n) configurations of the harness dispatch table (harness/src/lib.rs for_configs!)
-CONFIGS_ALL = [(8, 1), (8, 2), (8, 3), (8, 4), (8, 5), (8, 8), (8, 17), (8, 33),
+CONFIGS_ALL = [(8, 1), (8, 2), (8, 3), (8, 4), (8, 5), (8, 8), (8, 17), (8, 33), (8, 300),
                (16, 1), (16, 2), (16, 3), (16, 6),
                (32, 1), (32, 2), (32, 3), (32, 10),
                (64, 1), (64, 2), (64, 3), (64, 5), (64, 17), (64, 128)]
@@ -46,11 +46,18 @@ CONFIGS_SMALL = [(8, 1), (8, 3), (8, 5), (16, 2), (16, 3), (32, 1), (32, 3), (64
 
 
 def to_digits(v, w, n):
+    if w % 8 == 0 and n > 16 and 0 <= v < (1 << (w * n)):
+        b = v.to_bytes(w * n // 8, "little")
+        k = w // 8
+        return [int.from_bytes(b[i * k:(i + 1) * k], "little") for i in range(n)]
     m = (1 << w) - 1
     return [(v >> (w * i)) & m for i in range(n)]
 
 
 def from_digits(ds, w):
+    if w % 8 == 0 and len(ds) > 16 and all(0 <= d < (1 << w) for d in ds):
+        k = w // 8
+        return int.from_bytes(b"".join(d.to_bytes(k, "little") for d in ds), "little")
     v = 0
     for i, d in enumerate(ds):
         v |= d << (w * i)
